@@ -167,15 +167,14 @@ theorem StoreOK.remove (so : StrictOrder kind.lt) (hH : Hash32 H)
 theorem StoreOK.reopen (so : StrictOrder kind.lt) (hH : Hash32 H) (P : Bytes → Prop) (hinj : Inj H sz P)
     (m : Mem) (sys : Sys (KMap Bytes) Bytes) (hist : Recs Bytes) (d : Disk) (spec : Spec) (tn : Nat)
     (ok : StoreOK H kind sz N m sys hist d spec tn) (hspecP : ∀ k c, spec k = some c → P c)
-    (cfg : Config) (hk : cfg.kind = kind) (hn : cfg.N = N) (e1 : List Ev) (pre : Bool)
-    (hg : settingsGate cfg (d.applyAll (closeScript m)) = .ok (e1, pre))
-    (hsaveAny : ∀ (dd : Disk) a, logical H kind dd = .ok a → SaveOK kind a.idx ∧ a.highest + 1 < U64) :
+    (cfg : Config) (hk : cfg.kind = kind) (hn : cfg.N = N)
+    (ho : OpenOK H kind cfg (d.applyAll (closeScript m))) :
     ∃ m2 sys2 sc, (openBody H cfg (d.applyAll (closeScript m))).2 = .ok (m2, sc) ∧
       StoreOK H kind sz N m2 sys2 hist ((d.applyAll (closeScript m)).applyAll
         (openBody H cfg (d.applyAll (closeScript m))).1) spec tn := by
   obtain ⟨m2, sys2, sc, hres, _, _, _, t2, inv2, ng2, ns2⟩ :=
     C02_reopen_succeeds H kind sz N so hH m sys hist d ok.tied spec tn ok.sinv ok.ng ok.ns ok.nostray
-      P hinj hspecP cfg hk hn e1 pre hg hsaveAny
+      P hinj hspecP cfg hk hn ho
   refine ⟨m2, sys2, sc, hres, t2, inv2, ng2, ns2, ?_⟩
   intro p
   rw [← Disk.applyAll_append, get_untouched_all d ok.sinv.wf _ _ ?_]
@@ -239,7 +238,7 @@ def HistOK (P : Bytes → Prop) (cfg : Config) : Mem → Disk → Nat → List H
     m.next + 1 < U64 ∧
     ∀ evs m' b, removeScript H m d key = (evs, m', .ok b) → HistOK P cfg m' (d.applyAll evs) tn ops
   | m, d, tn, .reopen :: ops =>
-    (∃ e1 pre, settingsGate cfg (d.applyAll (closeScript m)) = .ok (e1, pre)) ∧
+    OpenOK H kind cfg (d.applyAll (closeScript m)) ∧
     ∀ m2 sc, (openBody H cfg (d.applyAll (closeScript m))).2 = .ok (m2, sc) →
       HistOK P cfg m2 ((d.applyAll (closeScript m)).applyAll
         (openBody H cfg (d.applyAll (closeScript m))).1) tn ops
@@ -247,7 +246,6 @@ def HistOK (P : Bytes → Prop) (cfg : Config) : Mem → Disk → Nat → List H
 /-- **C01 / C02 / C07 / C12 over whole histories with restarts (bytes and events).** -/
 theorem C02_histories_with_restarts (so : StrictOrder kind.lt) (hH : Hash32 H) (P : Bytes → Prop)
     (hinj : Inj H sz P) (cfg : Config) (hk : cfg.kind = kind) (hn : cfg.N = N)
-    (hsaveAny : ∀ (dd : Disk) a, logical H kind dd = .ok a → SaveOK kind a.idx ∧ a.highest + 1 < U64)
     (ops : List HOp) :
     ∀ (m : Mem) (sys : Sys (KMap Bytes) Bytes) (hist : Recs Bytes) (d : Disk) (spec : Spec) (tn : Nat),
     StoreOK H kind sz N m sys hist d spec tn → (∀ k c, spec k = some c → P c) →
@@ -293,9 +291,9 @@ theorem C02_histories_with_restarts (so : StrictOrder kind.lt) (hH : Hash32 H) (
       exact ⟨m', d', tn', sys', hist', by simp only [hRun, hrun]; exact hr,
         by simpa [List.foldl, hSpec] using okf, by simpa [List.foldl, hSpec] using hread⟩
     | reopen =>
-      obtain ⟨⟨e1, pre, hg⟩, hnext⟩ := hok
+      obtain ⟨ho, hnext⟩ := hok
       obtain ⟨m2, sys2, sc, hres, ok2⟩ := ok.reopen H kind sz N so hH P hinj m sys hist d spec tn hspecP
-        cfg hk hn e1 pre hg hsaveAny
+        cfg hk hn ho
       obtain ⟨m', d', tn', sys', hist', hr, okf, hread⟩ :=
         ih m2 sys2 hist _ _ tn ok2 hspecP (hnext m2 sc hres)
       exact ⟨m', d', tn', sys', hist', by simp only [hRun, hres]; exact hr,
